@@ -137,7 +137,7 @@ DISABLED_T = [Environment(loader=DictLoader(parts)).from_string(src) for src, pa
 for _t in DISABLED_T:
     try:
         _t.render(x=True)  # load partials now
-    except LiquidError:
+    except Exception:  # noqa: BLE001
         pass
 
 
@@ -236,7 +236,7 @@ TWIN_T = ENV_BLOCKS.from_string("{% assign v = x %}{% with v: 9 %}{{ v }}{% endw
 for _t in BLOCK_T + ERR_T:
     try:
         _t.render(x=1, b=1, a=[1], d=1)  # load partials now
-    except LiquidError:
+    except Exception:  # noqa: BLE001
         pass
 
 
